@@ -454,6 +454,8 @@ pub fn run_batch(prop: &'static dyn Property, cfg: &BatchConfig) -> i32 {
         prop.engine()
     );
     std::fs::create_dir_all(&cfg.scratch).expect("scratch dir");
+    // panics of runs (in the minimiser) are reported as violations, not printed
+    std::panic::set_hook(Box::new(|_| {}));
     let exe = std::env::current_exe().expect("current exe");
     let mut children = Vec::new();
     for w in 0..cfg.jobs {
